@@ -123,6 +123,9 @@ func servedView(as []app.VerifC15Asset) string {
 // describeDiffFor prefixes the symptom with "other-asset-" when an asset other than the one whose
 // cache file was damaged differs.
 func describeDiffFor(ref, got []app.VerifC15Asset, asset string) (symptom, what string) {
+	if asset == "" {
+		return describeDiff(ref, got)
+	}
 	var r2, g2 []app.VerifC15Asset
 	for _, a := range ref {
 		if a.AssetPath != asset {
@@ -342,7 +345,9 @@ func (s *synRunner) runLayouts(ls []layout, rng *rand.Rand, nDamage int, only *s
 			}
 		}
 	}
-	base := func(mode string, d *damage) synInput { return synInput{Part: "synthetic", Layouts: ls, Mode: mode, Damage: d} }
+	base := func(mode string, d *damage) synInput {
+		return synInput{Part: "synthetic", Layouts: ls, Mode: mode, Damage: d}
+	}
 
 	// 1. scan
 	scan := discover(fsys, "", false)
@@ -549,7 +554,7 @@ func runC15(c *lib.Ctx) error {
 	tS := time.Since(t0)
 	// Part B: complete servers over the bundled assets
 	nB, err := runBundled(c, scratch, rng)
-	c.Res.Notes = append(c.Res.Notes, fmt.Sprintf("wall time: part S %.1fs, part B %.1fs", tS.Seconds(), (time.Since(t0) - tS).Seconds()))
+	c.Res.Notes = append(c.Res.Notes, fmt.Sprintf("wall time: part S %.1fs, part B %.1fs", tS.Seconds(), (time.Since(t0)-tS).Seconds()))
 	if err != nil {
 		return err
 	}
